@@ -75,3 +75,55 @@ Proof. vm_compute. repeat split. Qed.
 Example C11_factor_ok_inhabited :
   Forall (factor_ok Z) [(FRoots [30; 10], fun v => (v - 10) * (v - 30)); (FConst 5, fun _ => 5)].
 Proof. exact ex_factor_ok. Qed.
+
+(* ================================================================================================================
+   6. THE VERIFIED ACCEPTANCE TEST.  The model driver does not compare libpoly's roots with an unverified reference
+      any more where the checker applies: it runs the extracted boolean function RootCheck.accept_roots on the root
+      list read from the implementation, and acceptance is PROVED to imply exactness in every real closed field.
+
+      accept_roots fuel a y p rs = Accept, where a assigns validated representations (rn_valid) to the lower
+      variables, rho is ANY valuation in a real closed field R under which the (normalised) representations of a
+      denote the values rho v, means: the normalised representations in rs denote a strictly increasing list vs
+      of elements of R which is exactly the set of real zeros of  t |-> p(rho, y := t)  - and vs = [] when that
+      function vanishes identically.  Scope of the checker: all assigned values rational, or exactly one irrational
+      value and a square-free specialisation; otherwise it answers NotApplicable (never Accept). *)
+Set Warnings "-notation-overridden,-ambiguous-paths".
+From mathcomp Require Import all_ssreflect all_algebra all_real_closed.
+Set Warnings "notation-overridden,ambiguous-paths".
+From LP Require Import Scalar UPoly MPoly RefAlg RootCheck RefAlgSpec RefAlgRoots RefAlgArith RootCheckBase RootCheckTop.
+Local Close Scope Z_scope.
+Local Open Scope ring_scope.
+
+Theorem C11_accept_roots_exact :
+  forall (R : rcfType) (fuel : nat) (a : asg) (y : MPoly.var) (p : mpoly) (rs : seq rnum) (rho : MPoly.var -> R),
+  (forall v r, List.In (v, r) a -> rn_denotes (rn_norm r) (rho v)) ->
+  accept_roots fuel a y p rs = Accept ->
+  exists vs : seq R,
+    [/\ dens (List.map rn_norm rs) vs, sorted <%R vs
+      & ((forall t, mp_evalR (RootCheckBase.upd rho y t) p = 0) /\ vs = [::]) \/
+        ((exists t, mp_evalR (RootCheckBase.upd rho y t) p != 0) /\
+         forall t, (t \in vs) = (mp_evalR (RootCheckBase.upd rho y t) p == 0)) ].
+Proof. exact accept_roots_exact. Qed.
+Print Assumptions C11_accept_roots_exact.
+
+(* the exact primitives of the checker: sign of an integer polynomial at a real algebraic number (gcd + Sturm +
+   refinement), and substitution of rational values with one positive multiplier *)
+Theorem C11_sign_alg : forall (R : rcfType) (fuel : nat) (p : seq Z) (x : rnum) (a : R) (s : Z),
+  rn_denotes x a -> sign_alg fuel p x = Some s -> @zr R s = Num.sg (@pr R p).[a].
+Proof. exact sign_alg_spec. Qed.
+Print Assumptions C11_sign_alg.
+
+(* the heart of the one-irrational-parameter regime, on the dense bivariate view By (polynomials in x, low y-degree
+   first) at the number a denoted by alpha: eliminant by resultant covers the roots, ALL its real roots are the
+   candidates, the discriminant certifies square-freeness, sign changes across isolating intervals decide *)
+Theorem C11_accept_bv_exact :
+  forall (R : rcfType) (fuel : nat) (alpha : rnum) (By : seq (seq Z)) (rs : seq rnum) (a : R),
+  rn_denotes alpha a ->
+  (forall r, List.In r rs -> exists v : R, rn_denotes r v) ->
+  accept_bv fuel alpha By rs = Accept ->
+  exists vs : seq R,
+    [/\ dens rs vs, sorted <%R vs
+      & (RootCheckAlg.spec_poly By a = 0 /\ vs = [::]) \/
+        (RootCheckAlg.spec_poly By a != 0 /\ forall t, (t \in vs) = root (RootCheckAlg.spec_poly By a) t)].
+Proof. exact (fun R => @RootCheckAlg.accept_bv_exact R (@sign_alg_spec R)). Qed.
+Print Assumptions C11_accept_bv_exact.
